@@ -12,7 +12,7 @@ from ..layout import META_KINDS
 from ..rendercheck import TG, TL, describe, fmt, frames, model, walk
 from ..report import Ctx
 from ..values import (ALL_KINDS, SBool, SDict, SFunc, SInt, SList, SNew, SObj, SOpaque, SSplat, SStr, Sym, Unmodelled, short)
-from .c08 import _derives_from_tagify, render_uses_copy, tagify_table
+from .c08 import _derives_from_tagify, render_uses_copy, tagify_table, tag_tagify_shape
 
 CORE = "htmltools._core"
 TLT = f"{CORE}:TagList.tagify"
@@ -314,6 +314,7 @@ def check(ctx: Ctx) -> None:
     splice_safety(ctx)
     splice_shape(ctx, I)
     tagify_table(ctx, I)
+    tag_tagify_shape(ctx, I, rule="C09.tagify")
     raise_path(ctx)
     render_uses_copy(ctx, I)
     document_pipeline(ctx, I)
